@@ -2585,7 +2585,11 @@ func (s *swamp) DeleteTreasure(key string, shadowDelete bool) error {
 
 	// delete the treasure from the beaconKey
 	// delete the treasure from the swamp and from the chroniclerInterface too
-	s.deleteHandler(key, shadowDelete)
+	if s.deleteHandler(key, shadowDelete) == nil {
+		// a concurrent Delete / Shift removed the record after the existence check above:
+		// this call deleted nothing and must not acknowledge a deletion
+		return errors.New(ErrorTreasureDoesNotExists)
+	}
 
 	// destroy the swamp if there is no treasure in it
 	if s.beaconKey.Count() == 0 {
@@ -2908,6 +2912,13 @@ func (s *swamp) deleteHandler(key string, shadowDelete bool) (deletedTreasure tr
 
 	guardID := treasureObj.StartTreasureGuard(true, guard.BodyAuthID)
 	defer treasureObj.ReleaseTreasureGuard(guardID)
+
+	// While this call waited for the guard a concurrent Delete / Shift may already have
+	// removed the record (or a later writer may have published a new one under the same
+	// key): only the caller that still finds ITS treasure in the key index deletes it.
+	if current := s.beaconKey.Get(key); current != treasureObj {
+		return nil
+	}
 
 	// Még változtatás előtt lemásoljuk a Treasure-t, hogy egy clone-t készíthessünk róla, hogy a törölt treasure-t minden
 	// adatával együtt vissza tudjuk adni.
